@@ -19,6 +19,8 @@ import (
 	"runtime"
 	"sort"
 	"strings"
+	"sync/atomic"
+	"time"
 
 	"github.com/ElrondNetwork/elrond-go/data"
 	"github.com/ElrondNetwork/elrond-go/data/trie"
@@ -344,7 +346,7 @@ func (r *proofRun) oneTrie(idx int, keys []string) {
 			r.judge(l, rank, keys, v, present, tr, k, nil, "nil-proof", nil)
 			r.judge(l, rank, keys, v, present, tr, k, nil, "nil-node-only", [][]byte{nil})
 		}
-		if !v.altered {
+		if !v.altered || (c.Quick() && v.recreate) {
 			continue
 		}
 		// altered proofs
@@ -420,7 +422,7 @@ func runProofs(c *mc.Ctx) {
 	c.Rule = fmt.Sprintf("all %d tries = subsets of <=%d keys of %q (value \"v\" each, so equal leaves are shared between paths) x variants %v; "+
 		"probe keys = the whole alphabet + for every present key: one nibble changed at each nibble position, one byte dropped / added at either end; "+
 		"GetProof for every probe; VerifyProof(probe, proof) for every ordered pair (probe, proof of any key of the same trie), a proof of a foreign trie, nil proof, [nil]; "+
-		"on the uncommitted and the recreated-from-root variant additionally every alteration of every proof (per node: truncate, each other type byte, flip first byte, drop, duplicate, swap with next, empty, nil, splice each of 4 foreign nodes; append nil/garbage node; nil/empty proof) "+
+		"on the uncommitted variant (thorough tier: also on the recreated-from-root variant) additionally every alteration of every proof (per node: truncate, each other type byte, flip first byte, drop, duplicate, swap with next, empty, nil, splice each of 4 foreign nodes; append nil/garbage node; nil/empty proof) "+
 		"and every recombination prefix(proof a)+suffix(proof b) of authentic nodes, each against every probe. "+
 		"Non-trivial = (trie, absent probe, proof of a present key) whose paths share at least the first nibble", len(subsets), maxSize, keysAll, vn)
 	c.Bound = fmt.Sprintf("tries with <= %d keys (%d tries)", maxSize, len(subsets))
@@ -433,14 +435,20 @@ func runProofs(c *mc.Ctx) {
 		r.replay()
 		return
 	}
+	if d := time.Now().Add(time.Duration(c.Pick(80, 13*60)) * time.Second); d.Before(c.Deadline) {
+		c.Deadline = d // wall-clock budget; only stops the enumeration (reported as a cap)
+	}
+	var done int64
 	mc.Par(len(subsets), func(i int) {
 		if c.Expired() {
 			c.Cap("deadline during trie enumeration")
 			return
 		}
 		r.oneTrie(i, subsets[i])
+		atomic.AddInt64(&done, 1)
 	})
 	c.Set("tries", len(subsets))
+	c.Set("tries_completed", done)
 }
 
 func (r *proofRun) replay() {
